@@ -1202,13 +1202,15 @@ func (fr *frame) checkFieldWrite(addr ssa.Value, st *bstate, pos token.Pos, cont
 		}
 		return false
 	}
-	for _, fn := range ts.Final {
+	for _, fd := range ts.FinalDecls {
 		if contentsOnly {
 			break
 		}
-		if fn == fname && !isMethodOf(ts.Ctors) && !isMethodOf(ts.Inits) && f.e.active(ts.FinalTags) {
-			f.oblige(st, fmt.Sprintf("%s#frame:final:%s.%s", fnShortName(fr.fn), ts.Name, fname), "frame", ts.FinalTags, "false",
-				fmt.Sprintf("%s.%s is declared final: written only by %v", ts.Name, fname, ts.Ctors), posStr(f.e.fset, pos))
+		for _, fn := range fd.Fields {
+			if fn == fname && !isMethodOf(ts.Ctors) && !isMethodOf(ts.Inits) && f.e.active(fd.Tags) && (len(fd.Tags) > 0 || f.e.curProp == "") {
+				f.oblige(st, fmt.Sprintf("%s#frame:final:%s.%s", fnShortName(fr.fn), ts.Name, fname), "frame", fd.Tags, "false",
+					fmt.Sprintf("%s.%s is declared final: written only by %v", ts.Name, fname, append(append([]string{}, ts.Ctors...), ts.Inits...)), posStr(f.e.fset, pos))
+			}
 		}
 	}
 	for _, pd := range ts.Private {
